@@ -11,7 +11,7 @@ Two engines:
 
 A body outside the fragment gives `undecided` (fail closed), never `holds`.
 """
-from ..caseinterp import (CaseInterp, Unknown, Panic, PANIC, NONE, UNIT, atom, some, ok, err, struct, run_case, loosely, equal, is_opt,
+from ..caseinterp import (pipe_outputs, CaseInterp, Unknown, Panic, PANIC, NONE, UNIT, atom, some, ok, err, struct, run_case, loosely, equal, is_opt,
                           is_res)
 
 TREE = 'tree::graph::Tree'
@@ -122,8 +122,13 @@ def cases_is_root():
 
 
 def cases_is_leaf():
-    return [('a stored leaf', [tree(some(A), A=node('A', isleaf=True)), A], ok(True)),
-            ('a stored inner node', [tree(some(A), A=node('A', isleaf=False)), A], ok(False)),
+    # the node's slots are known by the classes of entries present (only empty / only occupied / both), the stored flag agrees with them
+    # (the arena invariant): a body may read the flag or recompute it from the slots
+    def nd(flag, **classes):
+        return node('A', isleaf=flag, children=('array', {'#classes': dict(classes)}, None))
+    return [('a stored leaf (every slot empty)', [tree(some(A), A=nd(True, empty=NONE)), A], ok(True)),
+            ('a stored inner node with empty and occupied slots', [tree(some(A), A=nd(False, empty=NONE, occupied=some(C))), A], ok(False)),
+            ('a stored inner node with every slot occupied', [tree(some(A), A=nd(False, occupied=some(C))), A], ok(False)),
             ('an index that is not stored', [tree(some(A), A=node('A')), B], ('err', None))]
 
 
@@ -159,8 +164,10 @@ def cases_child():
 
 
 def cases_expect_dim():
+    e = lambda x, y: err(('enum', 'pwl::afftree::InputError', 'DimensionMismatch', {'expected': x, 'found': y}))
     return [('equal dimensions', [A, A], ok(UNIT)),
-            ('different dimensions', [A, B], err(('enum', 'pwl::afftree::InputError', 'DimensionMismatch', {'expected': A, 'found': B})))]
+            ('found larger than expected', [A, B], e(A, B), {'order': ['A', 'B']}),
+            ('found smaller than expected', [B, A], e(B, A), {'order': ['A', 'B']})]
 
 
 def cases_node_new():
@@ -563,6 +570,8 @@ def check_table(ctx, rule, q, site=None):
         ext = slab_externals()
         dext, log = delegation_externals(opts.get('returns', {}))
         ext.update(dext)
+        if 'order' in opts:
+            ext['#order'] = opts['order']
         try:
             got = run_case(ctx.facts, b, args, ext)
         except Unknown as e:
@@ -588,48 +597,6 @@ def check_table(ctx, rule, q, site=None):
 
 
 # ------------------------------------------------------------------------------------------------------------ iterator pipelines
-def pipe_outputs(F, ext, pipe, elem, idx):
-    """what the pipeline yields for ONE source element `elem` at position `idx` -> (list of outputs, reversed?)"""
-    ci = CaseInterp.bare(F, ext)
-    vals, filtered, rev = [elem], False, False
-    for st in pipe[2]:
-        k = st[0]
-        nv = []
-        if k == 'rev':
-            rev = not rev
-            continue
-        for v in vals:
-            if k == 'enumerate':
-                if filtered or rev:
-                    raise Unknown('enumerate after a filtering or reversing stage: the position is not the position in the source')
-                nv.append(('tuple', [idx, v]))
-            elif k == 'map':
-                nv.append(ci.apply(st[1], [v]))
-            elif k == 'filter':
-                r = ci.apply(st[1], [v])
-                if not isinstance(r, bool):
-                    raise Unknown('filter predicate')
-                if r:
-                    nv.append(v)
-            elif k in ('filter_map', 'flat_map'):
-                r = ci.apply(st[1], [v])
-                if not is_opt(r):
-                    raise Unknown(k + ' result')
-                if r[0] == 'some':
-                    nv.append(r[1])
-            elif k == 'flatten':
-                if not is_opt(v):
-                    raise Unknown('flatten of a non-Option')
-                if v[0] == 'some':
-                    nv.append(v[1])
-            else:
-                raise Unknown('stage ' + k)
-        if k in ('filter', 'filter_map', 'flat_map', 'flatten'):
-            filtered = True
-        vals = nv
-    return vals, rev
-
-
 def slots(tag):
     return ('array', {'#': tag}, None)
 
